@@ -105,6 +105,17 @@ CHECKS["C15"] = dict(
     note="The chain equivalence is asserted without kernel normalisation (the two vectorizers normalise over different windows by design).",
     ref="7/C15")
 
+CHECKS["C03"] = dict(
+    technique="property-based testing (Hypothesis) against a naive reference of the windowed kernel-weighted count, compared through the fitted label dictionaries; metamorphic timestamp translation and before/after transpose",
+    text="Generated corpora and 1-3 window specifications per estimator for the token, timed, multiset and n-gram vectorizers; every "
+         "cell of fit_transform is compared with an independently written per-occurrence reference through token_label_dictionary_ / "
+         "column_label_dictionary_ (which must themselves be the documented ones) within the float32 summation bound; timed matrices "
+         "must be invariant under translating all timestamps by 2^20 and 2^31 and delta_mean_ must be the mean consecutive difference. "
+         "Exploration.",
+    note="Variable radii: the library's radius formula on independently computed frequencies. Multiset kernels with offset >= 1 are the "
+         "recorded finding F30 (matched by the case tag multi_offset). n_iter=0, n_threads=1 here (C11, C04 cover the rest).",
+    ref="7/C03")
+
 PENDING_REASON = "check not built yet in this revision of /verif (planned, see DESIGN.md section 7)"
 
 
